@@ -118,23 +118,6 @@ theorem WFOscar_of_obs (f : FileF) (F : OscarSpec) (hobs : obsOscar f F = true) 
 
 /-! ### JETSCAPE: the rendered text of a specification of the grammar is well-formed as observed -/
 
-/-- events numbered 1, 2, 3, … (what JETSCAPE writes; C02 states its theorems for such files), at least one -/
-def wfJetSeq (F : JetSpec) : Prop :=
-  F.events ≠ [] ∧ ∀ i (h : i < F.events.length), (F.events[i]).label = ((i + 1 : Nat) : Int)
-
-theorem wfJet_of_seq {F : JetSpec} (h : wfJetSeq F) : wfJet F := by
-  obtain ⟨hne, hlab⟩ := h
-  cases hE : F.events with
-  | nil => exact absurd hE hne
-  | cons e es =>
-    refine ⟨e, es, hE, ?_, ?_⟩
-    · have := hlab 0 (by simp [hE]); simpa [hE] using this
-    · intro e' he'
-      obtain ⟨i, hi, rfl⟩ := List.getElem_of_mem he'
-      have := hlab (i + 1) (by simp [hE]; omega)
-      simp only [hE, List.getElem_cons_succ] at this
-      rw [this]; omega
-
 def jselEventsOf (es : List Rd.JEvent) : List RdSel.JEvent :=
   es.map (fun e => ⟨analyse e.header, e.parts.map (fun r => analyse (" ".intercalate r))⟩)
 
